@@ -9,3 +9,18 @@ Local Open Scope R_scope.
 Lemma tie_lee_sigma : forall wn a Q : R,
   gen_lee_sigma wn a Q = @lee_sigma R RTNum a Q wn.
 Proof. intros. unfold gen_lee_sigma, lee_sigma, npow. rnum. first [reflexivity | (repeat f_equal; field)]. Qed.
+
+
+(* Consequently the extinction the code computes inside the haze window is strictly positive and finite (a real number)
+   for positive particle size, Q and wavenumber: together with C19_lee_layer (zero outside the window) the haze acts
+   inside its window and only there. *)
+Lemma tie_code_lee_positive : forall wn a Q : R, 0 < wn -> 0 < a -> 0 < Q -> 0 < gen_lee_sigma wn a Q.
+Proof.
+  intros wn a Q Hw Ha HQ. unfold gen_lee_sigma. cbv zeta.
+  assert (Hpi := PI_RGT_0).
+  apply Rmult_lt_0_compat.
+  - apply Rmult_lt_0_compat; [|exact Hpi].
+    apply Rdiv_lt_0_compat; [lra|].
+    apply Rplus_lt_0_compat; [apply Rmult_lt_0_compat; [exact HQ|apply exp_pos]|apply exp_pos].
+  - apply Rmult_lt_0_compat; nra.
+Qed.
